@@ -25,3 +25,5 @@ func vNow() int64                              { panic("symro intrinsic") }
 func vAdvance(d int64)                         { panic("symro intrinsic") }
 func vPendingTimers() int                      { panic("symro intrinsic") }
 func vSymbolic() bool                          { panic("symro intrinsic") }
+func vAnd(a, b bool) bool                      { panic("symro intrinsic") }
+func vIte(c bool, a, b int64) int64            { panic("symro intrinsic") }
